@@ -37,6 +37,11 @@ func propC14(c *Ctx) string {
 	c02Admit(c, "C14/ADMIT")
 	// a malformed or truncated packet must not be able to panic the decoder (and with it the broker process)
 	c02Bounds(c, "C14")
+	if _, tq, _, _, retained, _, _, _ := backendVocab(c); retained != nil && tq != nil {
+		c11Replay(c, retained, tq)
+	}
+	c13TermGuard(c, v)
+	c04CollectGuard(c)
 	c12SetupState(c, v, "C14")
 	c12Once(c, v, "C14")
 	c20Switch(c, v, "C14")
